@@ -47,6 +47,9 @@ def r1_self_references_found(ctx):
             e in elts,
             f"references to {what} are not searched for: a method that names {'its own function' if e != 'recurse' else 'recurse'} keeps calling the function it was first registered in when it runs inside a variant",
         )
+    from .rewriter import law_all_names
+
+    law_all_names(ctx)
     # every name found is handed to the re-compiler (not just the first)
     rc = A.recompiler(repo)
     hand = [x for x in ast.walk(ad.node) if isinstance(x, ast.Call) and call_name(x) == rc.name]
@@ -213,8 +216,11 @@ def r4(ctx):
 
 def r5(ctx):
     from .c09 import r3_each_argument_once
+    from .rewriter import law_key_functions, law_self_first
 
     r3_each_argument_once(ctx)
+    law_key_functions(ctx)
+    law_self_first(ctx)
 
 
 RULES = [
